@@ -154,17 +154,7 @@ func c10Within(bound time.Duration, fn func()) bool {
 }
 
 func (f *c10Fix) probeLive() (live bool, note string) {
-	// (1) the bystander's request (skipped when its connection is gone: that is o_by_ok's business)
-	if f.by != nil && !f.by.isClosed() {
-		f.seq++
-		req := fmt.Sprintf(`{"id":"hdprobe-%d","type":"message","message":{"recipient":{"type":"session","sessionid":%q},"data":{"type":"hdprobe"}}}`, f.seq, f.byPub)
-		if err := f.by.send([]byte(req)); err == nil {
-			if !f.syncWithin(f.by, c10LiveBound) && !f.by.isClosed() {
-				return false, "the bystander's message to a session id was not processed within the bound"
-			}
-		}
-	}
-	// (2) a new connection
+	// a new connection
 	c, err := f.dial(c10LiveBound)
 	if err != nil {
 		return false, "a new connection was not accepted within the bound: " + err.Error()
@@ -201,15 +191,25 @@ func (f *c10Fix) probeLive() (live bool, note string) {
 		return false, "closing a new connection did not end within the bound"
 	}
 	delete(f.sys.clients, c.idx)
-	gone := false
-	deadline = time.Now().Add(c10LiveBound)
-	for !gone && time.Now().Before(deadline) {
-		gone = int(f.sys.hub.readPumpActive.Load()) <= f.sys.openClients()
-		if !gone {
+	// ... which the hub has done when the connection is no longer in its list of connections
+	// without session (removed under the hub's lock when the read pump has ended)
+	agent := fmt.Sprintf("hdconn-%d", c.idx)
+	if !c10Within(c10LiveBound, func() {
+		for {
+			found := false
+			f.sys.hub.mu.RLock()
+			for hc := range f.sys.hub.expectHelloClients {
+				if hc.UserAgent() == agent {
+					found = true
+				}
+			}
+			f.sys.hub.mu.RUnlock()
+			if !found {
+				return
+			}
 			time.Sleep(100 * time.Microsecond)
 		}
-	}
-	if !gone {
+	}) {
 		return false, "the hub did not let go of a closed connection within the bound"
 	}
 	return true, ""
@@ -646,8 +646,6 @@ func (f *c10Fix) runResume(s *c10Step, emitStart func()) {
 		s.DSame, s.Off, s.Api, s.Done = true, 0, 0, true
 		return
 	}
-	f.sys.settle()
-	f.by.take()
 	after, offAfter := f.digestText()
 	s.DSame = before == after
 	s.Off = offAfter - offBefore // minus the number of messages that were delivered
@@ -719,12 +717,19 @@ func (f *c10Fix) run(s *c10Step, emitStart func()) {
 		}
 		s.Replies = append(s.Replies, c10Reply(m, rev))
 	}
-	// the bystander: still served, still in its room
+	// the bystander: still served (a request that needs the hub's session table - a message to a session
+	// id, its own, so that nothing is delivered - and the marker behind it), still in its room
+	f.seq++
+	f.by.send([]byte(fmt.Sprintf(`{"id":"hdprobe-%d","type":"message","message":{"recipient":{"type":"session","sessionid":%q},"data":{"type":"hdprobe"}}}`, f.seq, f.byPub))) // nolint
 	s.ByOk = f.sync(f.by)
 	bmsgs, bclosed := f.by.take()
 	s.By = []string{}
 	for _, m := range bmsgs {
 		if bytes.Contains(m, []byte(`"id":"hdsync`)) {
+			continue
+		}
+		if bytes.Contains(m, []byte(`"hdprobe"`)) {
+			s.By = append(s.By, "BOther") // its own message came back
 			continue
 		}
 		s.By = append(s.By, c10Bystander(m, sf.pub))
@@ -734,7 +739,11 @@ func (f *c10Fix) run(s *c10Step, emitStart func()) {
 		s.ByOk = false
 	}
 	// is the hub still serving?  (before anything that reads the hub's tables: a reader would wait for ever, too)
-	s.Live, s.LiveNote = f.probeLive()
+	if !s.ByOk && !bclosed {
+		s.Live, s.LiveNote = false, "the bystander's message to a session id was not processed within the bound"
+	} else {
+		s.Live, s.LiveNote = f.probeLive()
+	}
 	var after string
 	var offAfter int
 	byThere := false
@@ -753,18 +762,29 @@ func (f *c10Fix) run(s *c10Step, emitStart func()) {
 		s.DSame, s.Off, s.Api, s.Done = true, 0, 0, true
 		return
 	}
-	f.sys.settle()
-	if extra, _ := f.by.take(); len(extra) > 0 {
-		for _, m := range extra {
-			if !bytes.Contains(m, []byte(`"id":"hdsync`)) {
-				s.By = append(s.By, "BOther") // the probe's message to the bystander's own session id came back
-			}
-		}
-	}
 	if !byThere {
 		s.ByOk = false
 	}
 	s.DSame = before == after
+	if !s.DSame {
+		// where the two digests part (diagnosis only)
+		k := 0
+		for k < len(before) && k < len(after) && before[k] == after[k] {
+			k++
+		}
+		lo := k - 60
+		if lo < 0 {
+			lo = 0
+		}
+		cut := func(t string) string {
+			hi := k + 100
+			if hi > len(t) {
+				hi = len(t)
+			}
+			return t[lo:hi]
+		}
+		s.DDiff = cut(before) + " => " + cut(after)
+	}
 	s.Off = offAfter - offBefore
 	if offBefore < 0 || offAfter < 0 {
 		s.Off = -1000 // the session without connection disappeared
